@@ -277,6 +277,21 @@ class Run(object):
       self.last_exc = repr(e)
     return esc
 
+  def disconnect(self):
+    """the client goes away: the receiver's connectionLost() must complete (and unregister the receiver) whatever was
+    sent on the connection"""
+    if self.proto == 'udp' or getattr(self, 'gone', False):
+      return 0
+    self.gone = True
+    from twisted.internet.error import ConnectionDone
+    from twisted.python.failure import Failure
+    try:
+      self.r.connectionLost(Failure(ConnectionDone()))
+    except Exception as e:
+      self.last_exc = repr(e)
+      return 1
+    return 1 if self.r in self.wm.state.connectedMetricReceiverProtocols else 0
+
   def close(self):
     self.wm.events.metricReceived.handlers[:] = list(self.wm.base)
     self.wm.state.connectedMetricReceiverProtocols.clear()
@@ -358,6 +373,8 @@ def execute(wm, proto, frames, cuts, expected_dps, res=0, pause_at=0, idle=None,
       segs.append(dict(n=b - a, delivered=ids, escaped=esc, closed=1 if run.tr.disconnecting else 0))
       if run.tr.disconnecting:
         break       # a real transport stops reading once loseConnection() was called
+    if segs and run.disconnect():
+      segs[-1]['escaped'] = 1        # the end of the connection is part of handling what was sent on it
   finally:
     run.close()
     wm.settings['MIN_TIMESTAMP_RESOLUTION'] = 0
